@@ -32,21 +32,28 @@ pub fn rs_stub() -> std::hash::RandomState {
 
 // ------------------------------------------------------------------ Report model
 
-pub static mut MSGS: usize = 0; // messages recorded (any kind)
-pub static mut ERRS: usize = 0; // messages whose outermost kind is Error
-pub static mut DEPTH: usize = 0; // parent stack depth
-pub static mut PKIND: [u8; 8] = [0; 8]; // kind of each parent (0 error, 1 warning, 2 note)
-pub static mut CAPS: [usize; 4] = [0; 4];
-pub static mut CAPD: usize = 0;
-pub static mut POP_UNDERFLOW: bool = false;
+/// All mutable model state lives in structs that start with a non-zero magic word:
+/// Kani 0.68 gives a global the identity of its initial *byte content*, so a
+/// zero-initialised `static mut usize` (or a `false` bool) shares storage with every
+/// constant of the same bytes - incrementing a plain counter turned `Vec::new()`'s
+/// capacity constant into 1 (spurious allocator and invalid-pointer failures).
+pub struct ReportModel {
+    pub magic: u64,
+    pub msgs: usize,  // messages recorded (any kind)
+    pub errs: usize,  // messages whose outermost kind is Error
+    pub depth: usize, // parent stack depth
+    pub pkind: [u8; 8], // kind of each parent (0 error, 1 warning, 2 note)
+    pub caps: [usize; 4],
+    pub capd: usize,
+}
+pub static mut RM: ReportModel = ReportModel { magic: 0x524d_5eed_c0de_0001, msgs: 0, errs: 0, depth: 0, pkind: [0; 8], caps: [0; 4], capd: 0 };
 
 pub fn reset_report_model() {
     unsafe {
-        MSGS = 0;
-        ERRS = 0;
-        DEPTH = 0;
-        CAPD = 0;
-        POP_UNDERFLOW = false;
+        RM.msgs = 0;
+        RM.errs = 0;
+        RM.depth = 0;
+        RM.capd = 0;
     }
 }
 fn kind_code(k: diagn::MessageKind) -> u8 {
@@ -58,27 +65,27 @@ fn kind_code(k: diagn::MessageKind) -> u8 {
 }
 fn record(kind: u8, from: usize) {
     unsafe {
-        MSGS += 1;
-        let top = if DEPTH > from { PKIND[from] } else { kind };
+        RM.msgs += 1;
+        let top = if RM.depth > from { RM.pkind[from] } else { kind };
         if top == 0 {
-            ERRS += 1;
+            RM.errs += 1;
         }
     }
 }
 fn push_kind(k: u8) {
     unsafe {
-        assert!(DEPTH < 8, "report model: parent stack deeper than 8");
-        PKIND[DEPTH] = k;
-        DEPTH += 1;
+        assert!(RM.depth < 8, "report model: parent stack deeper than 8");
+        RM.pkind[RM.depth] = k;
+        RM.depth += 1;
     }
 }
 /// Number of messages recorded, in the model (stubbed runs) plus in the real report
 /// (native replay, where no stub is applied).
 pub fn msgs(r: &diagn::Report) -> usize {
-    unsafe { MSGS + r.verif_messages().len() }
+    unsafe { RM.msgs + r.verif_messages().len() }
 }
 pub fn errs(r: &diagn::Report) -> usize {
-    let mut n = unsafe { ERRS };
+    let mut n = unsafe { RM.errs };
     for m in r.verif_messages() {
         if let diagn::MessageKind::Error = m.kind {
             n += 1;
@@ -97,8 +104,8 @@ pub fn st_message_dedup(_r: &mut diagn::Report, msg: diagn::Message) {
 }
 pub fn st_push_multiple(_r: &mut diagn::Report, msgs: Vec<diagn::Message>) {
     unsafe {
-        let from = if CAPD > 0 { CAPS[CAPD - 1] } else { 0 };
-        if DEPTH > from {
+        let from = if RM.capd > 0 { RM.caps[RM.capd - 1] } else { 0 };
+        if RM.depth > from {
             record(0, from);
         } else {
             for m in &msgs {
@@ -142,40 +149,39 @@ pub fn st_push_parent_note<S: Into<String>>(_r: &mut diagn::Report, _d: S, _s: d
 }
 pub fn st_pop_parent(_r: &mut diagn::Report) {
     unsafe {
-        if DEPTH == 0 {
-            POP_UNDERFLOW = true;
+        if RM.depth == 0 {
             panic!("pop_parent on empty parent stack");
         }
-        DEPTH -= 1;
+        RM.depth -= 1;
     }
 }
 pub fn st_push_parent_cap(_r: &mut diagn::Report) {
     unsafe {
-        assert!(CAPD < 4, "report model: cap stack deeper than 4");
-        CAPS[CAPD] = DEPTH;
-        CAPD += 1;
+        assert!(RM.capd < 4, "report model: cap stack deeper than 4");
+        RM.caps[RM.capd] = RM.depth;
+        RM.capd += 1;
     }
 }
 pub fn st_pop_parent_cap(_r: &mut diagn::Report) {
     unsafe {
-        if CAPD == 0 {
+        if RM.capd == 0 {
             panic!("pop_parent_cap on empty cap stack");
         }
-        CAPD -= 1;
+        RM.capd -= 1;
     }
 }
 pub fn st_wrap(_r: &diagn::Report, msg: diagn::Message) -> diagn::Message {
     msg
 }
 pub fn st_has_errors(_r: &diagn::Report) -> bool {
-    unsafe { MSGS != 0 }
+    unsafe { RM.msgs != 0 }
 }
 pub fn st_len(_r: &diagn::Report) -> usize {
-    unsafe { MSGS }
+    unsafe { RM.msgs }
 }
 pub fn st_stop_at_errors(_r: &diagn::Report) -> Result<(), ()> {
     unsafe {
-        if ERRS != 0 {
+        if RM.errs != 0 {
             Err(())
         } else {
             Ok(())
@@ -223,27 +229,32 @@ macro_rules! modelled {
 
 /// customasm's wrappers util::BigInt::{get_bit,set_bit} over num-bigint cost 53 GB for
 /// a 4-bit write through the real num-bigint. Model of the *bit store behind the two
-/// wrappers*: `set_bit` writes into one zero-initialised 128-bit destination array and
-/// remembers which BigInt object owns it (the object last written to); `get_bit` on
-/// the owner reads the array, on any other object reads bit `index` of its real value
-/// (two's complement, value must fit i64). A written object must not be moved before it
-/// is read through get_bit again; harnesses read the array directly (`dst_bit`).
-pub static mut DST: [bool; 128] = [false; 128];
-pub static mut DST_OWNER: usize = 0;
-pub static mut DST_WRITES: usize = 0;
+/// wrappers*: `set_bit` writes into one zero-initialised 128-bit destination array;
+/// `get_bit` reads bit `index` of the object's real value (two's complement, value must
+/// fit i64) while `READ_DST` is false, and reads the destination array while it is true
+/// (the harness flips it between "fill" and "read back" phases). No object identity is
+/// used: casting `&BigInt` to an address makes CBMC mis-model the dangling pointers of
+/// empty `Vec<u8>`s elsewhere in the program (spurious invalid-pointer failures).
+pub struct BitStore {
+    pub magic: u64,
+    pub dst: [bool; 128],
+    pub read_dst: bool,
+}
+pub static mut BS: BitStore = BitStore { magic: 0x4253_5eed_c0de_0002, dst: [false; 128], read_dst: false };
 
 pub fn reset_bitstore() {
     unsafe {
-        DST = [false; 128];
-        DST_OWNER = 0;
-        DST_WRITES = 0;
+        BS.dst = [false; 128];
+        BS.read_dst = false;
     }
+}
+pub fn read_dst(on: bool) {
+    unsafe { BS.read_dst = on; }
 }
 pub fn st_get_bit(this: &BigInt, index: usize) -> bool {
     unsafe {
-        let a = this as *const BigInt as usize;
-        if a == DST_OWNER {
-            return if index < 128 { DST[index] } else { false };
+        if BS.read_dst {
+            return if index < 128 { BS.dst[index] } else { false };
         }
     }
     match this.maybe_into::<i64>() {
@@ -260,28 +271,15 @@ pub fn st_get_bit(this: &BigInt, index: usize) -> bool {
         }
     }
 }
-pub fn st_set_bit(this: &mut BigInt, index: usize, value: bool) {
+pub fn st_set_bit(_this: &mut BigInt, index: usize, value: bool) {
     unsafe {
-        let a = this as *const BigInt as usize;
-        if DST_OWNER != a {
-            // a fresh destination (customasm always starts from BigInt::from(0))
-            DST = [false; 128];
-            DST_OWNER = a;
-        }
         assert!(index < 128, "bitstore model: write beyond 128 bits");
-        DST[index] = value;
-        DST_WRITES += 1;
+        BS.dst[index] = value;
     }
 }
-/// Bit `index` of the last written destination (model) or of `x` itself (native replay).
-pub fn dst_bit(x: &BigInt, index: usize) -> bool {
-    unsafe {
-        if DST_OWNER != 0 {
-            DST[index]
-        } else {
-            x.get_bit(index)
-        }
-    }
+/// Bit `index` of the destination array.
+pub fn dst_bit(index: usize) -> bool {
+    unsafe { BS.dst[index] }
 }
 
 /// Attaches the BitStore model in addition to `modelled!`.
